@@ -46,7 +46,7 @@ Lemma qstep_sim fuel o q e1 e2 h e1' h' ob : slot_of o = Some q -> sim q e1 e2 -
   exists e2', estep fuel n i o e2 h = (e2', h', ob) /\ sim q e1' e2'.
 Proof.
   intros So [Ed Ec] E.
-  destruct o as [nm|app nm args|nm args|nm ar rows|ov script| |q0 nm args|q0|q0|q0]; try discriminate;
+  destruct o as [nm|app nm args|nm args|nm ar rows|ov script| |q0 nm args|q0|q0|q0|ts]; try discriminate;
     inversion So; subst q0; cbn [estep] in *; rewrite <- Ec; try rewrite <- Ed;
     destruct (aget Nat.eqb q (cursors e1)) as [c|] eqn:Eq;
     try (inversion E; subst; eexists; split; [reflexivity|split; congruence]).
@@ -131,3 +131,30 @@ Proof.
 Qed.
 
 End Slots.
+
+(* ---------------------------------------------------------------- how the hypothesis sinv comes about *)
+Lemma sinv_nocursors n i PQ e h : cursors e = [] -> (forall q, closed (PQ q) h) -> sinv n i PQ e h.
+Proof. intros Ec C. split; [exact C|]. intros q c H. rewrite Ec in H. discriminate. Qed.
+
+(* starting a query in slot q whose argument terms are over Pnew (and whose allocations will be: the cells
+   named after the engine's start counter) extends the family by PQ q := Pnew.  A generator that was in the
+   slot is dropped (closed) first, exactly as in the code. *)
+Lemma sinv_start fuel n i PQ q Pnew nm args e h e' h' ob :
+  sinv n i PQ e h ->
+  Forall (tin Pnew) (map (rn (ucell n i)) args) -> (forall k, Pnew (ccell n i (nstart e) k) = true) -> closed Pnew h ->
+  estep fuel n i (OStart q nm args) e h = (e', h', ob) ->
+  sinv n i (fun q' => if Nat.eqb q' q then Pnew else PQ q') e' h'.
+Proof.
+  intros [HC HQ] Ha Hf Cn E. cbn [estep] in E.
+  assert (Hh : forall P, closed P h -> closed P h').
+  { intros P CP. destruct (aget Nat.eqb q (cursors e)) as [c|]; inversion E; subst; auto.
+    unfold cclose. cbn [snd]. apply unbind_closed. exact CP. }
+  split.
+  - intros q'. destruct (Nat.eqb q' q); apply Hh; auto.
+  - intros q' c' H.
+    assert (Ec : cursors e' = aset Nat.eqb q (cstart (nstart e) nm (map (rn (ucell n i)) args)) (cursors e)).
+    { destruct (aget Nat.eqb q (cursors e)); inversion E; subst; destruct e; reflexivity. }
+    rewrite Ec in H. destruct (Nat.eqb_spec q' q) as [->|Nq].
+    + rewrite aget_aset_eq in H. inversion H; subst. split; [apply cstart_good'; exact Ha|exact Hf].
+    + rewrite aget_aset_neq in H by auto. apply HQ. exact H.
+Qed.
